@@ -14,6 +14,7 @@ mod ops_dos;
 mod ops_path;
 mod ops_text;
 mod ops_reader;
+mod ops_stream;
 mod mkzip;
 
 pub use util::*;
@@ -32,6 +33,9 @@ fn dispatch(op: &str, args: &[Arg]) -> String {
         return r;
     }
     if let Some(r) = ops_hostile::dispatch(op, args) {
+        return r;
+    }
+    if let Some(r) = ops_stream::dispatch(op, args) {
         return r;
     }
     "BADOP".to_string()
